@@ -646,6 +646,9 @@ func (so *SimpleOptimizer) transform(node parser.Node) (parser.Expr, bool) {
 			_, _ = so.transform(node.Finally)
 		}
 	case *parser.CatchStmt:
+		if node.Ident != nil {
+			so.scope.define(node.Ident.Name)
+		}
 		if node.Body != nil {
 			_, _ = so.transform(node.Body)
 		}
@@ -678,6 +681,12 @@ func (so *SimpleOptimizer) transform(node parser.Node) (parser.Expr, bool) {
 			_, _ = so.transform(node.Body)
 		}
 	case *parser.ForInStmt:
+		if node.Key != nil {
+			so.scope.define(node.Key.Name)
+		}
+		if node.Value != nil {
+			so.scope.define(node.Value.Name)
+		}
 		if node.Body != nil {
 			_, _ = so.transform(node.Body)
 		}
